@@ -3,7 +3,7 @@
    vectors in the correspondence; the great-circle angle in the pruning theorems, whose two
    hypotheses — symmetry and the triangle inequality — are proved for the unit sphere in
    Props/C14.v, C14_sphere_triangle). *)
-From Verif Require Import Prelude PairCount PairCountP.
+From Verif Require Import Prelude PairCount PairCountP PairIgnored PairIgnoredP.
 Open Scope Q_scope.
 
 (* 1. the merged-grid counter: cumulative+diff and per-bin+tail both give the (lo,hi] sums, and
@@ -188,6 +188,109 @@ Theorem C01_cover_case_sound : forall C cens tlo thi i o,
   dist2 o (nth i cens obj_origin) <= nth i thi 0.
 Proof. exact cover_case_sound. Qed.
 Print Assumptions C01_cover_case_sound.
+
+(* 9. columns and values the measurement ignores (Model/PairIgnored.v: objects with one field per
+      column - optional weight, optional redshift, further columns -, bin index by np.digitize's rule).
+      The unknown sample and its randoms of a cross-correlation are counted unbinned: selection, pair
+      list, every cell (model and specification) and the stored weight sums depend on position,
+      weight (1 without a weight column) and patch only - not on a redshift column the sample happens
+      to carry (present or not; -99 flags, zeros, values outside the binning, huge values), not on the
+      edges or the closed side, not on further columns.  An absent weight column is a column of ones.
+      A binned sample depends on its redshifts through bin membership only; values outside the binning
+      are in no bin.  Dropping objects by ANY test on the redshift column that rejects some value
+      (before the binned / unbinned branch of build_trees) is refuted. *)
+Theorem C01_unbinned_sel_ignores_columns : forall e r e' r' (C C' : list aobj) p,
+  map core C = map core C' ->
+  map strip (asel e r C p None) = map strip (asel e' r' C' p None).
+Proof. exact unbinned_sel_ignores_columns. Qed.
+Print Assumptions C01_unbinned_sel_ignores_columns.
+
+Theorem C01_unbinned_tree_ignores_columns : forall e r e' r' (C C' : list aobj) p (A : list obj),
+  map core C = map core C' ->
+  mkpairs A (asel e r C p None) = mkpairs A (asel e' r' C' p None) /\
+  sumw (asel e r C p None) = sumw (asel e' r' C' p None) /\
+  length (asel e r C p None) = length (asel e' r' C' p None).
+Proof. exact unbinned_tree_ignores_columns. Qed.
+Print Assumptions C01_unbinned_tree_ignores_columns.
+
+Theorem C01_unbinned_counts_ignore_columns : forall e r e' r' (C2 C2' : list aobj)
+    (auto : bool) (cfgs : list bincfg) (C1 : list obj) prs (s b i j : nat),
+  map core C2 = map core C2' ->
+  count_cell auto cfgs C1 (classify e r C2) false prs s b i j
+    = count_cell auto cfgs C1 (classify e' r' C2') false prs s b i j /\
+  spec_cell auto cfgs C1 (classify e r C2) false s b i j
+    = spec_cell auto cfgs C1 (classify e' r' C2') false s b i j /\
+  sumw (sel (classify e r C2) j None) = sumw (sel (classify e' r' C2') j None).
+Proof. exact unbinned_counts_ignore_columns. Qed.
+Print Assumptions C01_unbinned_counts_ignore_columns.
+
+Theorem C01_absent_weights_are_ones : forall C : list aobj, map core (map with_ones C) = map core C.
+Proof. exact absent_weights_are_ones. Qed.
+Print Assumptions C01_absent_weights_are_ones.
+
+Theorem C01_outside_in_no_bin : forall (rt : bool) (e0 : Q) rest z b,
+  (S b < length (e0 :: rest))%nat ->
+  (if rt then z <= e0 else z < e0) \/
+  (forall x, In x (e0 :: rest) -> if rt then x < z else x <= z) ->
+  (bin_of (e0 :: rest) rt (Some z) =? S b)%nat = false.
+Proof. exact outside_in_no_bin. Qed.
+Print Assumptions C01_outside_in_no_bin.
+
+Theorem C01_binned_counts_membership_only : forall e r (C1 C1' : list aobj)
+    (auto : bool) (cfgs : list bincfg) (C2 : list obj) prs (s b i j : nat),
+  Forall2 (fun o o' => core o = core o' /\
+                       (bin_of e r (ared o) =? S b)%nat = (bin_of e r (ared o') =? S b)%nat) C1 C1' ->
+  count_cell auto cfgs (classify e r C1) C2 false prs s b i j
+    = count_cell auto cfgs (classify e r C1') C2 false prs s b i j /\
+  spec_cell auto cfgs (classify e r C1) C2 false s b i j
+    = spec_cell auto cfgs (classify e r C1') C2 false s b i j /\
+  sumw (sel (classify e r C1) i (Some b)) = sumw (sel (classify e r C1') i (Some b)).
+Proof. exact binned_counts_membership_only. Qed.
+Print Assumptions C01_binned_counts_membership_only.
+
+Theorem C01_filter_on_ignored_refuted : forall (keep : option Q -> bool) (z0 : Q) e r,
+  keep (Some z0) = false ->
+  exists (C : list aobj) (A : list obj) lo hi,
+    ~ sumw (selk keep e r C 0 None) == sumw (asel e r C 0 None) /\
+    ~ w_in lo hi (mkpairs A (selk keep e r C 0 None)) == w_in lo hi (mkpairs A (asel e r C 0 None)).
+Proof. exact filter_on_ignored_refuted. Qed.
+Print Assumptions C01_filter_on_ignored_refuted.
+
+Theorem C01_negative_flag_filter_refuted : forall e r,
+  exists (C : list aobj) (A : list obj) lo hi,
+    ~ sumw (selk keep_nonneg e r C 0 None) == sumw (asel e r C 0 None) /\
+    ~ w_in lo hi (mkpairs A (selk keep_nonneg e r C 0 None)) == w_in lo hi (mkpairs A (asel e r C 0 None)).
+Proof. exact negative_flag_filter_refuted. Qed.
+Print Assumptions C01_negative_flag_filter_refuted.
+
+(* a passing tree case of the harness (AngularTree / build_trees / BinnedTrees / Catalog.build_trees)
+   means: counts = pair sum over ALL selected objects, records and weight sums as selected *)
+Theorem C01_ign_tree_case_sound : forall edges rt C p bin D q bin' cfg impl nrec nrec' sw sw',
+  c01_ign_tree_case edges rt C p bin D q bin' cfg impl nrec nrec' sw sw' = 0%nat ->
+  balpha cfg = None ->
+  let A := asel edges rt C p bin in let B := asel edges rt D q bin' in
+  qlist_eqb (ppp_spec cfg A B) impl = true /\ length A = nrec /\ length B = nrec' /\
+  sumw A == sw /\ sumw B == sw'.
+Proof. exact ign_tree_case_sound. Qed.
+Print Assumptions C01_ign_tree_case_sound.
+
+(* non-vacuity of 9: an unknown patch whose redshift column holds -99, 0 and 10^30 and which has an
+   extra column contributes all three objects; the reference keeps the two objects inside (1/10, 1/2]
+   and none of -99, 0, 1000; the filtered variant loses the flagged object *)
+Example C01_ignored_concrete :
+  let e := [1#10; 1#2; 1] in
+  let mk := fun x w z p ex => {| ax := x; ay := 0; az := 0; aw := w; ared := z; apatch := p; aextra := ex |} in
+  let ref := [mk 0%Z None (Some (3#10)) 0%nat []; mk 1%Z (Some 2) (Some (1#2)) 0%nat [];
+              mk 2%Z None (Some (-99)) 0%nat []; mk 3%Z None (Some 0) 0%nat []; mk 4%Z None (Some 1000) 0%nat []] in
+  let unk := [mk 2%Z None (Some (-99)) 0%nat [7]; mk 3%Z (Some 1) (Some 0) 0%nat [8]; mk 5%Z None (Some (10^30)) 0%nat []] in
+  let bare := [mk 2%Z None None 0%nat []; mk 3%Z None None 0%nat []; mk 5%Z None None 0%nat []] in
+  length (asel e true unk 0 None) = 3%nat /\ sumw (asel e true unk 0 None) == 3 /\
+  length (asel e true ref 0 (Some 0%nat)) = 2%nat /\ sumw (asel e true ref 0 (Some 0%nat)) == 3 /\
+  length (asel e true ref 0 (Some 1%nat)) = 0%nat /\
+  w_in 0 9 (mkpairs (asel e true ref 0 (Some 0%nat)) (asel e true unk 0 None)) == 6 /\
+  map core unk = map core bare /\
+  length (selk keep_nonneg e true unk 0 None) = 2%nat.
+Proof. exact ignored_concrete. Qed.
 
 (* non-vacuity: a 9-edge grid (per-bin branch) and a 3-edge grid (cumulative branch) on four
    pairs: the slice over edges 1..2 is the weight in (r_1, r_2] *)
